@@ -617,13 +617,91 @@ fn oracle_in_file(case: &[u8], obs: &mut Obs) -> Result<(), String> {
     Ok(())
 }
 
+/// A buffer of 2^32 + 64 bytes (zero pages, mapped lazily) with distinct bytes around byte 2^32: tables whose entries lie
+/// at byte offsets at and beyond 2^32 (both classes: the class says how entries are encoded, not how large a caller's
+/// slice may be).
+fn big_buffer() -> &'static [u8] {
+    static B: std::sync::OnceLock<Vec<u8>> = std::sync::OnceLock::new();
+    B.get_or_init(|| {
+        let mut v = vec![0u8; (1usize << 32) + 64];
+        let base = (1usize << 32) - 64;
+        for i in 0..128 {
+            v[base + i] = (i as u8).wrapping_mul(13).wrapping_add(5) | 1;
+        }
+        v
+    })
+}
+
+fn big_one<E: EndianParse, P: ParseAt + PartialEq + Debug>(e: E, class: Class, delta: usize, tname: &str, obs: &mut Obs) -> Result<(), String> {
+    let buf = big_buffer();
+    let es = P::size_for(class);
+    let t = ParsingTable::<E, P>::new(e, class, buf);
+    let n = buf.len() / es;
+    if t.len() != n || t.is_empty() {
+        return Err(format!("{} table over {} bytes: len() = {}, is_empty() = {}; whole entries: {}", tname, buf.len(), t.len(), t.is_empty(), n));
+    }
+    // the entries whose bytes straddle or follow byte 2^32, and the last ones
+    let first = ((1usize << 32) - 64) / es;
+    let i = (first + delta).min(n + 2);
+    let got = t.get(i);
+    let mut off = i.wrapping_mul(es);
+    let want = if i < n { P::parse_at(e, class, &mut off, buf).ok() } else { None };
+    match (got, want) {
+        (Ok(g), Some(w)) if g == w => obs.count("entries_beyond_4GiB_compared", 1),
+        (Err(_), None) => obs.count("get_beyond_len_refused", 1),
+        (g, w) => return Err(format!("{} table ({:?}) over a {}-byte buffer with {} whole entries: get({}) [byte offset {}] = {:?}; parse_at there gives {:?}", tname, class, buf.len(), n, i, i.wrapping_mul(es), g.map_err(|e| err_name(&e)), w)),
+    }
+    Ok(())
+}
+
+/// plain encoding: [type, enc, delta]
+fn oracle_big_buffer(case: &[u8], obs: &mut Obs) -> Result<(), String> {
+    if case.len() < 3 {
+        return Ok(());
+    }
+    let t = case[0] as usize % 9;
+    let enc = ALL_ENC[case[1] as usize % 4];
+    let delta = case[2] as usize;
+    let class = class_of(enc);
+    let spec = specs_for(enc.le)[(case[1] as usize / 4) % 2];
+    with_endian!(spec, |e| match t {
+        0 => big_one::<_, SectionHeader>(e, class, delta, TYPES[t], obs),
+        1 => big_one::<_, ProgramHeader>(e, class, delta, TYPES[t], obs),
+        2 => big_one::<_, Symbol>(e, class, delta, TYPES[t], obs),
+        3 => big_one::<_, Dyn>(e, class, delta, TYPES[t], obs),
+        4 => big_one::<_, VersionIndex>(e, class, delta, TYPES[t], obs),
+        5 => big_one::<_, u32>(e, class, delta, TYPES[t], obs),
+        6 => big_one::<_, u64>(e, class, delta, TYPES[t], obs),
+        7 => big_one::<_, Rel>(e, class, delta, TYPES[t], obs),
+        _ => big_one::<_, Rela>(e, class, delta, TYPES[t], obs),
+    })?;
+    obs.nontrivial();
+    obs.describe(|| json!({"type": TYPES[t], "enc": enc.name(), "index_delta": delta}));
+    Ok(())
+}
+
+fn enum_big_buffer(shard: usize, _n: usize, _t: Tier, emit: &mut dyn FnMut(&[u8]) -> bool) {
+    if shard != 0 {
+        return;
+    }
+    for t in 0..9u8 {
+        for e in 0..8u8 {
+            for d in 0..70u8 {
+                if !emit(&[t, e, d]) {
+                    return;
+                }
+            }
+        }
+    }
+}
+
 pub fn property() -> Property {
     Property {
         id: "C09",
         level: "exploration",
-        rule: "cases are (entry type in {SectionHeader,ProgramHeader,Symbol,Dyn,VersionIndex,u32,u64,Rel,Rela}, class, byte order, fixed or run-time spec, n<=40 entries encoded by the independent ELF writer from generated field values, 0..entsize-1 trailing bytes, an access script of len/is_empty/get(i)/iter/into_iter/interleaved-iterator steps, nth(k) on the advanced iterator, skip/step_by/count/last/fuse on fresh and partly consumed iterators (the relocation iterators also through direct calls on the concrete types), with i in 0..n+2, k*2^32+i and near usize::MAX incl. indices whose byte offset wraps); oracle: len==floor(bytes/ABI entsize), get(i) Ok iff i<n and equal to the encoded entry, iter and into_iter yield exactly n items with item i == get(i) == encoded entry, is_empty==(n==0), independent of order/repetition. Non-trivial: ragged byte length or an access at index len; distinct by (bytes, script) hash. Subcheck big_tables: VersionIndex/u32/u64 tables of k*65536 + {-2..3, 255..257, 0..3000} pairwise distinct entries (k in 1..3), the same oracle with accesses at 65535/65536/65537/n-1/n, nth and skip/step_by distances above 2^16; every case counts as non-trivial. Subcheck in_file: the tables the file-level accessors hand out (ElfBytes section_headers/segments/symbol_table/dynamic_symbol_table/dynamic/find_common_data, i.e. tables whose bytes sit in the middle of a larger buffer; ElfStream symbol_table/dynamic_symbol_table/dynamic) on the three input modes: len/is_empty/iteration/get(i)/count/last agree and get(len), get(len+1..), get(2^32|len), get(usize::MAX) fail; every SHT_REL/SHT_RELA section through ElfBytes and through ElfStream over a reader with short reads and interruptions (half of them after another range around the section was read through the same handle) yields exactly the reference decoding of its whole entries (bounded by take(bytes+2)).",
+        rule: "cases are (entry type in {SectionHeader,ProgramHeader,Symbol,Dyn,VersionIndex,u32,u64,Rel,Rela}, class, byte order, fixed or run-time spec, n<=40 entries encoded by the independent ELF writer from generated field values, 0..entsize-1 trailing bytes, an access script of len/is_empty/get(i)/iter/into_iter/interleaved-iterator steps, nth(k) on the advanced iterator, skip/step_by/count/last/fuse on fresh and partly consumed iterators (the relocation iterators also through direct calls on the concrete types), with i in 0..n+2, k*2^32+i and near usize::MAX incl. indices whose byte offset wraps); oracle: len==floor(bytes/ABI entsize), get(i) Ok iff i<n and equal to the encoded entry, iter and into_iter yield exactly n items with item i == get(i) == encoded entry, is_empty==(n==0), independent of order/repetition. Non-trivial: ragged byte length or an access at index len; distinct by (bytes, script) hash. Subcheck big_tables: VersionIndex/u32/u64 tables of k*65536 + {-2..3, 255..257, 0..3000} pairwise distinct entries (k in 1..3), the same oracle with accesses at 65535/65536/65537/n-1/n, nth and skip/step_by distances above 2^16; every case counts as non-trivial. Subcheck in_file: the tables the file-level accessors hand out (ElfBytes section_headers/segments/symbol_table/dynamic_symbol_table/dynamic/find_common_data, i.e. tables whose bytes sit in the middle of a larger buffer; ElfStream symbol_table/dynamic_symbol_table/dynamic) on the three input modes: len/is_empty/iteration/get(i)/count/last agree and get(len), get(len+1..), get(2^32|len), get(usize::MAX) fail; every SHT_REL/SHT_RELA section through ElfBytes and through ElfStream over a reader with short reads and interruptions (half of them after another range around the section was read through the same handle) yields exactly the reference decoding of its whole entries (bounded by take(bytes+2)). Subcheck beyond_4gib: every entry type x class x order x fixed/run-time spec as a table over a 2^32+64 byte buffer (lazily mapped): len, and get(i) for the 70 entries from byte 2^32-64 on (up to and beyond the last whole entry) against parse_at at that offset.",
         assumptions: &["entry sizes are the ABI sizes from <elf.h> (writer self-check)"],
-        subs: vec![Sub::new("tables", oracle, 4096, 1_500_000, 40_000_000), Sub::new("big_tables", oracle_big, 160, 1_500, 60_000).shrink(60), Sub::new("in_file", oracle_in_file, 2400, 60_000, 3_000_000).shrink(1500)],
+        subs: vec![Sub::new("tables", oracle, 4096, 1_500_000, 40_000_000), Sub::new("big_tables", oracle_big, 160, 1_500, 60_000).shrink(60), Sub::new("in_file", oracle_in_file, 2400, 60_000, 3_000_000).shrink(1500), Sub::enumerated("beyond_4gib", oracle_big_buffer, enum_big_buffer, false)],
         extras: vec![crate::fuzz::c09_choice],
     }
 }
